@@ -208,7 +208,7 @@ theorem normElem_fixed_clean (isPath : Bool) (x : Bytes) (h : normElem isPath x 
 
 /-! ### Splitting a join -/
 
-theorem splitOn_append_sep (sep : UInt8) (x rest : Bytes) (hx : sep ∉ x) :
+theorem c15_splitOn_append_sep (sep : UInt8) (x rest : Bytes) (hx : sep ∉ x) :
     splitOn sep (x ++ sep :: rest) = x :: splitOn sep rest := by
   induction x with
   | nil => simp [splitOn]
@@ -217,7 +217,7 @@ theorem splitOn_append_sep (sep : UInt8) (x rest : Bytes) (hx : sep ∉ x) :
     have hc : ¬ c = sep := fun e => hx.1 e.symm
     simp only [List.cons_append, splitOn, if_neg hc, ih hx.2]
 
-theorem splitOn_no_sep (sep : UInt8) (x : Bytes) (hx : sep ∉ x) : splitOn sep x = [x] := by
+theorem c15_splitOn_no_sep (sep : UInt8) (x : Bytes) (hx : sep ∉ x) : splitOn sep x = [x] := by
   induction x with
   | nil => rfl
   | cons c cs ih =>
@@ -225,19 +225,19 @@ theorem splitOn_no_sep (sep : UInt8) (x : Bytes) (hx : sep ∉ x) : splitOn sep 
     have hc : ¬ c = sep := fun e => hx.1 e.symm
     simp only [splitOn, if_neg hc, ih hx.2]
 
-theorem splitOn_joinWith (sep : UInt8) (L : List Bytes) (hne : L ≠ []) (hL : ∀ x ∈ L, sep ∉ x) :
+theorem c15_splitOn_joinWith (sep : UInt8) (L : List Bytes) (hne : L ≠ []) (hL : ∀ x ∈ L, sep ∉ x) :
     splitOn sep (joinWith [sep] L) = L := by
   induction L with
   | nil => exact absurd rfl hne
   | cons x rest ih =>
     cases rest with
-    | nil => exact splitOn_no_sep sep x (hL x (List.mem_cons_self ..))
+    | nil => exact c15_splitOn_no_sep sep x (hL x (List.mem_cons_self ..))
     | cons y rest' =>
       have hx := hL x (List.mem_cons_self ..)
       have hrest : ∀ z ∈ y :: rest', sep ∉ z := fun z hz => hL z (List.mem_cons_of_mem _ hz)
       have : joinWith [sep] (x :: y :: rest') = x ++ sep :: joinWith [sep] (y :: rest') := by
         simp [joinWith]
-      rw [this, splitOn_append_sep sep x _ hx, ih (by simp) hrest]
+      rw [this, c15_splitOn_append_sep sep x _ hx, ih (by simp) hrest]
 
 theorem splitFirst_append_sep (sep : UInt8) (k v : Bytes) (hk : sep ∉ k) :
     splitFirst sep (k ++ sep :: v) = (k, some v) := by
@@ -313,7 +313,7 @@ theorem roundtrip_sorted (Q : List (Bytes × Bytes)) (hQ : ∀ kv ∈ Q, normalP
       intro x hx
       obtain ⟨kv, hkv, rfl⟩ := List.mem_map.1 hx
       exact renderPair_no_amp kv (hL kv hkv)
-    rw [splitOn_joinWith 0x26 _ hne hamp, queryLoop_render L [] hL]
+    rw [c15_splitOn_joinWith 0x26 _ hne hamp, queryLoop_render L [] hL]
     simp only [Outcome.map_ok, Outcome.ok.injEq]
     show canonQuery (groupPairs L) = _
     unfold canonQuery
